@@ -1,7 +1,7 @@
 """C03 — storage errors leave committed state unchanged or fully applied (partial)."""
 from sa import names as N
 from sa.prog import (Effect, Site, Slice, TERM, callee_of, must_order, ok_sites, err_sites, return_sites, op_local,
-                     op_place, outcome_arms, in_arm)
+                     op_place, outcome_arms, in_arm, place_fields)
 from sa.rules.common import publish_sites, is_test_or_bench, is_queue_receiver
 from sa.rules.C01 import find_commit
 
@@ -316,12 +316,61 @@ def _short(c):
     return re.sub(r"\{closure#\d+\}", "{closure}", short_path(c))
 
 
+HANDLE_STATE = ("live_docs", "live_generation")
+
+
+def r03f(ctx, P):
+    rid = "R03.f"
+    ctx.rule(rid, "UNCHANGED ON ERROR (the handle's own state): a commit that returns an error must leave the writer handle as it was, "
+                  "because the caller retries on the same handle and the cached live-document map is trusted while the generation "
+                  "matches (C05 R05.b). In IndexWriter::commit no site that writes `live_docs` / `live_generation` of self (a store "
+                  "to the field, or a `&mut` borrow of it handed to a call such as mem::take) and no site that empties the queue "
+                  "(`pending_ops.clear/truncate/drain`) can reach an error return")
+    f = P.fn(N.W + "::commit")
+    if not ctx.anchor(rid, f, "IndexWriter::commit"):
+        return
+    errs = err_sites(f)
+    ctx.floor(rid + ".errs", len(errs), 3, "error returns of commit")
+    sites = []
+    for b, i, st in f.stmts():
+        if st["k"] != "assign":
+            continue
+        d = st["dst"]
+        fl = place_fields(d)
+        if d["l"] == 1 and fl and fl[0] in HANDLE_STATE:
+            sites.append((Site(f, b, i), "store to self.%s" % fl[0]))
+        rv = st["rv"]
+        if rv["k"] == "ref" and rv.get("mut") and rv["place"]["l"] == 1:
+            fl = place_fields(rv["place"])
+            if fl and fl[0] in HANDLE_STATE:
+                # where does the borrow go?
+                tgt = st["dst"]["l"]
+                for b2, t2 in f.calls():
+                    if any(op_local(a) == tgt for a in t2["args"]):
+                        sites.append((Site(f, b2), "&mut self.%s handed to %s" % (fl[0], callee_of(t2).rsplit("::", 1)[1])))
+    sl = Slice(f)
+    for b, t in f.calls():
+        cal = callee_of(t)
+        if cal.endswith(("Vec::<T, A>::clear", "Vec::<T, A>::truncate", "Vec::<T, A>::drain", "mem::take", "mem::replace")) and t["args"] and \
+                "pending_ops" in sl.fields(t["args"][0]):
+            sites.append((Site(f, b), "pending_ops.%s" % cal.rsplit("::", 1)[1]))
+    ctx.floor(rid, len(sites), 3, "writes of the handle state in commit (queue clear, live_docs, live_generation)")
+    for site, what in sites:
+        reach = f.reachable_from(site.b)
+        bad = [e for e in errs if e.b in reach and e.b != site.b]
+        ctx.ob(rid, "%s:commit:%s" % (rid, what.replace(" ", "")), not bad,
+               "%s at %s happens only on the way to success" % (what, site.loc()) if not bad else
+               "%s at %s can be followed by the error return at %s: a failed commit leaves the handle with a changed cache / queue, and "
+               "the retry on the same handle trusts it" % (what, site.loc(), bad[0].loc()), site.loc())
+
+
 def run(ctx, progs):
     P = progs.get("default")
     commit = r03ab(ctx, P)
     if commit is not None:
         r03c(ctx, P, commit)
     r03e(ctx, P)
+    r03f(ctx, P)
     r03d(ctx, P)
     if ctx.tier == "thorough":
         ctx.config = "features"
